@@ -265,6 +265,26 @@ func (c *VC) ghostBuiltin(st *State, name string, call *ast.CallExpr) []*Term {
 			return []*Term{mk(">=", sortBool, mkField(v, "sl_base"), run.old.alloc)}
 		}
 		return []*Term{tTrue}
+	case "sameOrDisjoint":
+		// two pointers of one type designate the same object or non-overlapping objects
+		a := c.eval(st, call.Args[0])
+		b := c.eval(st, call.Args[1])
+		sz := int64(1)
+		if pt, ok := c.typeOf(call.Args[0]).Underlying().(*types.Pointer); ok {
+			sz = c.sizeof(pt.Elem())
+		}
+		return []*Term{mkOr(mkEq(a, b), mk("<=", sortBool, addrAdd(a, sz), b), mk("<=", sortBool, addrAdd(b, sz), a))}
+	case "allocated":
+		// p points to an object that exists in the current state (its extent lies below the allocation frontier)
+		v := c.eval(st, call.Args[0])
+		t := c.typeOf(call.Args[0])
+		if pt, ok := t.Underlying().(*types.Pointer); ok {
+			return []*Term{mkAnd(mk("<", sortBool, intLit64(0), v), mk("<=", sortBool, addrAdd(v, c.sizeof(pt.Elem())), st.alloc))}
+		}
+		if _, ok := t.Underlying().(*types.Slice); ok {
+			return []*Term{mkAnd(mk("<", sortBool, intLit64(0), mkField(v, "sl_base")), mk("<", sortBool, mkField(v, "sl_base"), st.alloc))}
+		}
+		return []*Term{tTrue}
 	case "sameBase":
 		a := c.eval(st, call.Args[0])
 		b := c.eval(st, call.Args[1])
